@@ -23,6 +23,7 @@ ASSUMPTIONS = [
     "in-memory network model",
 ]
 REQUIRED_MONITORS = ["fault_fired", "reply_451", "probe", "data_closed", "bystander"]
+ANCHOR_FUNCTIONS = ['pathio.py:universal_exception.<locals>.wrapper', 'server.py:Server.dispatcher', 'server.py:PathConditions.__call__.<locals>.wrapper']
 EXHAUSTIVE = {"quick": True, "thorough": True}
 WALL_BUDGET = {"quick": 900, "thorough": 7200}
 
